@@ -413,6 +413,23 @@ def check_files(tier, seed, order, res):
                 res.violation('C16|file|%s|%s' % (name, 'size' if len(got) != len(want[name]) else 'content'),
                               '.p8 file %s (read order %d): region %s differs from what the file says at offset %#x '
                               '(read %d bytes, file + PICO-8 defaults give %d bytes)' % (tag, order, name, off, len(got), len(want[name])), case)
+        # the map's lower half lives in gfx memory: read through the Map object of the loaded cart (every cell of rows
+        # 32..63, and rows 0..31 from the map region)
+        try:
+            bad = None
+            for y in range(64):
+                for x in range(128):
+                    w_ = want['gfx'][0x1000 + (y - 32) * 128 + x] if y >= 32 else want['map'][y * 128 + x]
+                    if g.map.get_cell(x, y) != w_:
+                        bad = (x, y, g.map.get_cell(x, y), w_)
+                        break
+                if bad:
+                    break
+            if bad:
+                res.violation('C16|file|map-cell|%s' % ('rows32-63' if bad[1] >= 32 else 'rows0-31'),
+                              '.p8 file %s (read order %d): map cell (%d,%d) reads %#x, the file\'s bytes say %#x' % ((tag, order) + bad), case)
+        except Exception as e:
+            res.violation('C16|file|map-cell|raise|%s' % type(e).__name__, '.p8 file %s: Map.get_cell raised %r' % (tag, e), case)
         glab = getattr(g, 'label', None)
         glab_b = bytes(glab.to_bytes()) if glab is not None else None
         if (lab is None) != (glab_b is None) or (lab is not None and glab_b != lab):
